@@ -477,7 +477,7 @@ def cases(ctx):
         if ctx.mine(i):
             yield "t0", {"msgs": rec[k:k + 100]}
         i += 1
-    for k in range(ctx.share(120 if quick else 4000)):
+    for k in range(ctx.share(600 if quick else 4000)):
         ms = []
         for _ in range(100):
             df = rng.choice((20, 21, 20, 21, 17, rng.randrange(32)))
@@ -488,15 +488,15 @@ def cases(ctx):
         yield "t0", {"msgs": ms}
     regs = ["BDS10", "BDS17", "BDS20", "BDS30", "BDS40", "BDS44", "BDS45", "BDS50", "BDS60"]
     for reg in regs:
-        for rep in range(4 if quick else 32):
+        for rep in range(8 if quick else 32):
             if ctx.mine(i):
-                yield "t2", {"reg": reg, "n": 400 if quick else 2000}
+                yield "t2", {"reg": reg, "n": 800 if quick else 2000}
             i += 1
-        for rep in range(4 if quick else 32):
+        for rep in range(8 if quick else 32):
             if ctx.mine(i):
-                yield "t3", {"reg": reg, "n": 30 if quick else 150}
+                yield "t3", {"reg": reg, "n": 60 if quick else 150}
             i += 1
-    for k in range(16 if quick else 256):
+    for k in range(32 if quick else 256):
         if ctx.mine(i):
-            yield "t4", {"n": 700 if quick else 3000}
+            yield "t4", {"n": 1500 if quick else 3000}
         i += 1
